@@ -2,7 +2,10 @@
 //!
 //! (a) Queue model: generated interleavings of write / flush / read / fill_buf+consume /
 //!     consume_with / clear_but_last on `IOQueue`, compared after every step with a
-//!     deque-of-chunks model whose length is recomputed from its content.
+//!     deque-of-chunks model whose length is recomputed from its content.  Rare runs of many
+//!     writes without flush take one flush-delimited chunk to any size up to 2.5 MiB (and
+//!     beyond, when runs follow each other), so that reads, consumes and drops meet chunks far
+//!     larger than anything a single small write produces.
 //! (b) Terminal on a pseudo-terminal: generated sessions of write / execute / flush / poll /
 //!     frames_drop with payloads far beyond the pty buffer, a peer that drains at a generated
 //!     rate, and injected short writes / EAGAIN / EINTR (verif hook in `Tty::write`).  Every
@@ -11,7 +14,8 @@
 //!     SIGWINCH between any two operations, and half of them run on a pty whose ioctl reports
 //!     no pixel size while the peer answers `CSI 18 t CSI 14 t`: the terminal object then takes
 //!     its size from escape sequences and answers the signal by queueing a size request of its
-//!     own behind the application's output.
+//!     own behind the application's output.  One session in ~35 assembles a unit beyond 1 MiB
+//!     from many writes and drops frames while it is pending or in flight.
 
 use crate::engine::*;
 use crate::pty::{Peer, Pty};
@@ -38,7 +42,28 @@ pub enum QOp {
     ConsumeWith(u16),
     /// clear_but_last (frames_drop)
     Drop,
+    /// a run of writes without a flush in between: `total` bytes of a pattern derived from
+    /// `seed`, handed to `write` in pieces of `piece` bytes (the last one shorter) -- the way a
+    /// renderer or an image encoder assembles one frame; all of it belongs to the chunk being
+    /// written
+    WriteRun { total: usize, piece: usize, seed: u8 },
 }
+
+/// byte `i` of the pattern of a write run
+fn run_byte(seed: u8, i: usize) -> u8 {
+    (i.wrapping_mul(131) ^ (i >> 9) ^ (i >> 17)).wrapping_add(seed as usize) as u8
+}
+
+/// short rendering of a possibly very long byte slice for failure messages
+fn show(b: &[u8]) -> String {
+    if b.len() <= 64 {
+        format!("{b:?}")
+    } else {
+        format!("[{} bytes: {:?} .. {:?}]", b.len(), &b[..16], &b[b.len() - 16..])
+    }
+}
+
+const MIB: usize = 1 << 20;
 
 #[derive(Clone, Copy, Debug, Serialize, Deserialize)]
 pub enum Fault {
@@ -61,6 +86,9 @@ pub enum TOp {
     FramesDrop,
     /// raise(SIGWINCH) in this process: the terminal object learns of it in its next poll
     Winch,
+    /// a record body of `total` bytes handed to the terminal object in pieces of `piece` bytes
+    /// without a flush in between (one flush-delimited unit assembled from many writes)
+    WriteRun { total: usize, piece: usize },
 }
 
 #[derive(Clone, Debug, Serialize, Deserialize)]
@@ -130,89 +158,170 @@ fn check_queue(ops: &[QOp]) -> Outcome {
     let mut delivered_model: Vec<u8> = Vec::new();
     let mut dropped_after_delete = false;
     let mut drops = 0;
+    // classes of the long-chunk histories (labels)
+    let mut runs = 0usize;
+    let mut max_chunk = 0usize;
+    let mut drop_front_big = false; // a drop while the front chunk holds more than 1 MiB
+    let mut drop_front_big_started = false; // ... and part of it had been read already
+    let mut read_from_big = false;
+    let ioerr = |e: std::io::Error| Fail::new("queue/io-error", format!("{e:?}"));
     for (step, op) in ops.iter().enumerate() {
         match op {
             QOp::Write(bytes) => {
-                let n = q.write(bytes).map_err(|e| Fail::new("queue/io-error", format!("{e:?}")))?;
+                let n = q.write(bytes).map_err(ioerr)?;
                 ensure!(n == bytes.len(), "queue/short-write", "write returned {n} of {}", bytes.len());
                 if m.chunks.is_empty() {
                     m.chunks.push_back(Vec::new());
                 }
                 m.chunks.back_mut().unwrap().extend_from_slice(bytes);
+                // a write never ends a chunk: only flush does
+                ensure!(
+                    q.chunks_count() == m.chunks.len(),
+                    "queue/chunk-boundary-without-flush",
+                    "step {step}: after a write of {} bytes the queue holds {} chunks where the history has {} flush-delimited units (the one being written has {} bytes): a chunk was ended although nothing was flushed, so a drop would discard part of a flush-delimited chunk",
+                    bytes.len(),
+                    q.chunks_count(),
+                    m.chunks.len(),
+                    m.chunks.back().map(|c| c.len()).unwrap_or(0)
+                );
+            }
+            QOp::WriteRun { total, piece, seed } => {
+                runs += 1;
+                let piece = (*piece).max(1);
+                let data: Vec<u8> = (0..*total).map(|i| run_byte(*seed, i)).collect();
+                if m.chunks.is_empty() && !data.is_empty() {
+                    m.chunks.push_back(Vec::new());
+                }
+                let chunks_model = m.chunks.len();
+                let mut readable = m.readable();
+                for part in data.chunks(piece) {
+                    let n = q.write(part).map_err(ioerr)?;
+                    ensure!(n == part.len(), "queue/short-write", "write returned {n} of {}", part.len());
+                    readable += part.len();
+                    // cheap invariants after every single write of the run (the full ones
+                    // follow after the run)
+                    ensure!(
+                        q.len() == readable,
+                        "queue/len-differs-from-readable-bytes",
+                        "step {step} ({} of {total} bytes of a run written in pieces of {piece}): len() = {} but {readable} bytes can still be read",
+                        readable - m.readable(),
+                        q.len()
+                    );
+                    ensure!(
+                        q.chunks_count() == chunks_model,
+                        "queue/chunk-boundary-without-flush",
+                        "step {step}: after {} of {total} bytes of a run of writes (pieces of {piece} bytes, no flush in between) the queue holds {} chunks where the history has {chunks_model} flush-delimited units: the unit being written (now {} bytes) was split although nothing was flushed, so a drop would discard part of a flush-delimited chunk",
+                        readable - m.readable(),
+                        q.chunks_count(),
+                        m.chunks.back().map(|c| c.len()).unwrap_or(0) + readable - m.readable()
+                    );
+                }
+                if let Some(back) = m.chunks.back_mut() {
+                    back.extend_from_slice(&data);
+                }
             }
             QOp::Flush => {
-                q.flush().map_err(|e| Fail::new("queue/io-error", format!("{e:?}")))?;
+                q.flush().map_err(ioerr)?;
                 if !m.front_slice().is_empty() {
                     m.chunks.push_back(Vec::new());
                 }
             }
             QOp::Read(n) => {
                 let mut buf = vec![0u8; *n];
-                let got = q.read(&mut buf).map_err(|e| Fail::new("queue/io-error", format!("{e:?}")))?;
-                let want = m.front_slice()[..(*n).min(m.front_slice().len())].to_vec();
+                let got = q.read(&mut buf).map_err(ioerr)?;
+                let want = &m.front_slice()[..(*n).min(m.front_slice().len())];
                 ensure!(
                     buf[..got] == want[..],
                     "queue/read-bytes",
-                    "step {step}: read({n}) returned {:?}, model {:?}",
-                    &buf[..got],
-                    want
+                    "step {step}: read({n}) returned {}, model {}",
+                    show(&buf[..got]),
+                    show(want)
                 );
                 delivered_impl.extend_from_slice(&buf[..got]);
-                delivered_model.extend_from_slice(&want);
-                m.consume(want.len());
+                delivered_model.extend_from_slice(want);
+                let k = want.len();
+                read_from_big |= k > 0 && m.chunks.front().map(|c| c.len() > MIB).unwrap_or(false);
+                m.consume(k);
             }
             QOp::FillConsume(frac) => {
-                let slice = q.fill_buf().map_err(|e| Fail::new("queue/io-error", format!("{e:?}")))?.to_vec();
-                ensure!(slice == m.front_slice(), "queue/fill_buf", "step {step}: fill_buf {:?}, model {:?}", slice, m.front_slice());
+                let slice = q.fill_buf().map_err(ioerr)?;
+                ensure!(slice == m.front_slice(), "queue/fill_buf", "step {step}: fill_buf {}, model {}", show(slice), show(m.front_slice()));
                 let k = (*frac as usize * (slice.len() + 1)) >> 16;
                 delivered_impl.extend_from_slice(&slice[..k]);
                 delivered_model.extend_from_slice(&m.front_slice()[..k]);
                 BufRead::consume(&mut q, k);
+                read_from_big |= k > 0 && m.chunks.front().map(|c| c.len() > MIB).unwrap_or(false);
                 m.consume(k);
             }
             QOp::ConsumeWith(frac) => {
-                let mut seen = Vec::new();
+                let mut seen_ok = true;
+                let mut seen_len = 0usize;
                 let r: Result<usize, std::io::Error> = q.consume_with(|slice| {
-                    seen = slice.to_vec();
-                    Ok((*frac as usize * (slice.len() + 1)) >> 16)
+                    seen_ok = slice == m.front_slice();
+                    seen_len = slice.len();
+                    let k = (*frac as usize * (slice.len() + 1)) >> 16;
+                    delivered_impl.extend_from_slice(&slice[..k]);
+                    Ok(k)
                 });
-                let k = r.map_err(|e| Fail::new("queue/io-error", format!("{e:?}")))?;
-                ensure!(seen == m.front_slice(), "queue/consume_with-slice", "step {step}: consumer saw {:?}, model {:?}", seen, m.front_slice());
-                delivered_impl.extend_from_slice(&seen[..k]);
+                let k = r.map_err(ioerr)?;
+                ensure!(
+                    seen_ok,
+                    "queue/consume_with-slice",
+                    "step {step}: consumer saw a slice of {seen_len} bytes that differs from the model's {}",
+                    show(m.front_slice())
+                );
                 delivered_model.extend_from_slice(&m.front_slice()[..k]);
+                read_from_big |= k > 0 && m.chunks.front().map(|c| c.len() > MIB).unwrap_or(false);
                 m.consume(k);
             }
             QOp::Drop => {
                 if m.chunks.len() > 1 && m.chunks.iter().skip(1).any(|c| !c.is_empty()) {
                     dropped_after_delete = true;
                 }
+                if m.chunks.front().map(|c| c.len() > MIB).unwrap_or(false) {
+                    drop_front_big = true;
+                    drop_front_big_started |= m.offset > 0;
+                }
                 q.clear_but_last();
                 m.chunks.truncate(1);
                 drops += 1;
+                // the front chunk is never discarded, whole or in part: it is the one whose
+                // transmission may have started ("only whole flush-delimited chunks that have
+                // not started transmission")
+                ensure!(
+                    q.len() >= m.readable(),
+                    "queue/drop-tore-front-chunk",
+                    "step {step}: after clear_but_last only {} bytes are readable, but {} bytes of the flush-delimited chunk at the front ({} bytes, {} of them read before the drop) were still to be read: the drop discarded part of a chunk",
+                    q.len(),
+                    m.readable(),
+                    m.chunks.front().map(|c| c.len()).unwrap_or(0),
+                    m.offset
+                );
             }
         }
+        max_chunk = max_chunk.max(m.chunks.iter().map(|c| c.len()).max().unwrap_or(0));
         // invariants after every operation
         ensure!(
             q.len() == m.readable(),
             "queue/len-differs-from-readable-bytes",
-            "step {step} ({:?}): len() = {} but {} bytes can still be read",
-            op,
+            "step {step} ({}): len() = {} but {} bytes can still be read",
+            show_op(op),
             q.len(),
             m.readable()
         );
         ensure!(
             q.as_slice() == m.front_slice(),
             "queue/as_slice",
-            "step {step} ({:?}): as_slice {:?}, model {:?}",
-            op,
-            q.as_slice(),
-            m.front_slice()
+            "step {step} ({}): as_slice {}, model {}",
+            show_op(op),
+            show(q.as_slice()),
+            show(m.front_slice())
         );
         ensure!(
             q.is_empty() == m.chunks.is_empty() && q.chunks_count() == m.chunks.len(),
             "queue/chunk-structure",
-            "step {step} ({:?}): is_empty {} chunks_count {}, model {} chunks",
-            op,
+            "step {step} ({}): is_empty {} chunks_count {}, model {} chunks",
+            show_op(op),
             q.is_empty(),
             q.chunks_count(),
             m.chunks.len()
@@ -222,28 +331,51 @@ fn check_queue(ops: &[QOp]) -> Outcome {
     let mut guard_steps = 0;
     while !q.is_empty() {
         guard_steps += 1;
-        ensure!(guard_steps < 100_000, "queue/drain-does-not-terminate", "queue never becomes empty");
+        ensure!(guard_steps < 1_000_000, "queue/drain-does-not-terminate", "queue never becomes empty");
+        // (small reads as ever while little is left, whole slices of what a long chunk holds)
         let mut buf = [0u8; 17];
-        let got = q.read(&mut buf).map_err(|e| Fail::new("queue/io-error", format!("{e:?}")))?;
+        if q.as_slice().len() > 4096 {
+            let slice = q.fill_buf().map_err(ioerr)?;
+            let k = slice.len() - 1000;
+            delivered_impl.extend_from_slice(&slice[..k]);
+            BufRead::consume(&mut q, k);
+            continue;
+        }
+        let got = q.read(&mut buf).map_err(ioerr)?;
         delivered_impl.extend_from_slice(&buf[..got]);
     }
     while !m.chunks.is_empty() {
-        let s = m.front_slice().to_vec();
-        delivered_model.extend_from_slice(&s);
-        m.consume(s.len());
+        let k = m.front_slice().len();
+        delivered_model.extend_from_slice(m.front_slice());
+        m.consume(k);
     }
     ensure!(
         delivered_impl == delivered_model,
         "queue/delivered-bytes",
-        "bytes read from the queue over the whole history differ from the model: {} vs {} bytes",
+        "bytes read from the queue over the whole history differ from the model: {} vs {} bytes (first difference at byte {:?})",
         delivered_impl.len(),
-        delivered_model.len()
+        delivered_model.len(),
+        delivered_impl.iter().zip(delivered_model.iter()).position(|(a, b)| a != b)
     );
     ensure!(q.len() == 0, "queue/len-differs-from-readable-bytes", "empty queue reports len {}", q.len());
     Ok(Pass::new(ops.len() >= 4 && (drops > 0 || delivered_model.len() > 8))
         .label("queue")
         .label_if(dropped_after_delete, "drop-removed-data")
-        .label_if(drops > 0, "has-drop"))
+        .label_if(drops > 0, "has-drop")
+        .label_if(runs > 0, "queue:write-run")
+        .label_if(max_chunk > 65536, "queue:chunk>64KiB")
+        .label_if(max_chunk > MIB, "queue:chunk>1MiB")
+        .label_if(max_chunk > 2 * MIB, "queue:chunk>2MiB")
+        .label_if(read_from_big, "queue:read-from-chunk>1MiB")
+        .label_if(drop_front_big, "queue:drop-with-front-chunk>1MiB")
+        .label_if(drop_front_big_started, "queue:drop-with-front-chunk>1MiB-partly-read"))
+}
+
+fn show_op(op: &QOp) -> String {
+    match op {
+        QOp::Write(b) if b.len() > 64 => format!("Write({})", show(b)),
+        other => format!("{other:?}"),
+    }
 }
 
 // ---- (b) terminal on a pty -----------------------------------------------------------------
@@ -635,6 +767,10 @@ fn check_pty(ops: &[TOp], bite: usize, pause_us: usize, faults: &[Fault], size_b
     let mut big = false;
     let mut winches = 0usize;
     let mut winch_with_backlog = false;
+    let mut runs = 0usize;
+    // a frames_drop while a unit of more than 1 MiB is pending / partly transmitted
+    let mut drop_with_long_unit = false;
+    let mut drop_with_long_unit_in_flight = false;
     let started = Instant::now();
 
     let begin_chunk = |chunks: &mut Vec<Chunk>, term: &mut SystemTerminal, written_total: &mut usize| -> Result<(), Fail> {
@@ -661,6 +797,23 @@ fn check_pty(ops: &[TOp], bite: usize, pause_us: usize, faults: &[Fault], size_b
                 chunks.last_mut().unwrap().bytes.extend_from_slice(&body);
                 written_total += body.len();
                 if *n > 8192 {
+                    big = true;
+                }
+            }
+            TOp::WriteRun { total, piece } => {
+                if !open {
+                    begin_chunk(&mut chunks, &mut term, &mut written_total)?;
+                    open = true;
+                }
+                let no = chunks.len();
+                let body: Vec<u8> = (0..*total).map(|i| 32 + ((i * 29 + (i >> 12) + no * 11) % 90) as u8).collect();
+                for part in body.chunks((*piece).max(1)) {
+                    term.write_all(part).map_err(|e| Fail::new("pty/write-error", format!("{e:?}")))?;
+                }
+                chunks.last_mut().unwrap().bytes.extend_from_slice(&body);
+                written_total += body.len();
+                runs += 1;
+                if *total > 8192 {
                     big = true;
                 }
             }
@@ -718,6 +871,20 @@ fn check_pty(ops: &[TOp], bite: usize, pause_us: usize, faults: &[Fault], size_b
                 open = false;
                 for c in chunks.iter_mut() {
                     c.droppable = true;
+                }
+                if term.frames_pending() > 0 {
+                    // which units can still be (partly) in the queue: those that end behind
+                    // what has been sent
+                    let sent = term.stats().send - send0;
+                    let mut off = 0usize;
+                    for c in chunks.iter() {
+                        let (a, b) = (off, off + c.bytes.len());
+                        off = b;
+                        if c.bytes.len() > MIB && b > sent {
+                            drop_with_long_unit = true;
+                            drop_with_long_unit_in_flight |= sent > a;
+                        }
+                    }
                 }
                 term.frames_drop();
             }
@@ -806,7 +973,12 @@ fn check_pty(ops: &[TOp], bite: usize, pause_us: usize, faults: &[Fault], size_b
         .label_if(winches > 0 && size_by_escape, "pty:sigwinch+size-from-escape-sequences")
         .label_if(winch_with_backlog, "pty:sigwinch-with->=2-chunks-pending")
         .label_if(winch_with_backlog && size_by_escape, "pty:sigwinch-with->=2-chunks-pending+size-from-escape-sequences")
-        .label_if(requests > 0, "pty:size-requests-between-chunks"))
+        .label_if(requests > 0, "pty:size-requests-between-chunks")
+        .label_if(runs > 0, "pty:unit-assembled-from-many-writes")
+        .label_if(chunks.iter().any(|c| c.bytes.len() > MIB), "pty:unit>1MiB")
+        .label_if(chunks.iter().any(|c| c.bytes.len() > 2 * MIB), "pty:unit>2MiB")
+        .label_if(drop_with_long_unit, "pty:frames-drop-with-unit>1MiB-pending")
+        .label_if(drop_with_long_unit_in_flight, "pty:frames-drop-with-unit>1MiB-in-flight"))
 }
 
 /// Parse the bytes received after the handshake: whole chunks only, in increasing order, each
@@ -893,14 +1065,36 @@ fn fault() -> BoxedStrategy<Fault> {
     .boxed()
 }
 
+/// total size and piece size of a run of writes without flush: the total is spread over all
+/// magnitudes from 1 KiB to 2.5 MiB (2^k + 0..2^k, half of the weight on k = 20 and 21, i.e.
+/// beyond 1 MiB and beyond 2 MiB), the pieces are tiny, 4 KiB (image encoders), a few KiB, or the whole run at once
+fn write_run(max_log2: u32) -> BoxedStrategy<(usize, usize)> {
+    let k = if max_log2 >= 21 {
+        prop_oneof![10 => 10u32..20, 6 => Just(20u32), 4 => Just(21u32)].boxed()
+    } else {
+        (10u32..=max_log2).boxed()
+    };
+    (k, any::<u32>(), prop_oneof![1 => 1usize..64, 2 => Just(4096usize), 2 => 256usize..20_000, 1 => Just(usize::MAX)])
+        .prop_map(|(k, extra, piece)| {
+            // (beyond 1 MiB only a quarter of the span: 1-1.25 MiB, 2-2.5 MiB)
+            let span = if k >= 20 { 1usize << (k - 2) } else { 1usize << k };
+            let total = (1usize << k) + (extra as usize & (span - 1));
+            (total, piece.min(total))
+        })
+        .boxed()
+}
+
 fn queue_strategy(max_ops: usize) -> BoxedStrategy<Case> {
     let qop = prop_oneof![
-        5 => proptest::collection::vec(any::<u8>(), 0..40).prop_map(QOp::Write),
-        3 => Just(QOp::Flush),
-        3 => (0usize..50).prop_map(QOp::Read),
-        2 => any::<u16>().prop_map(QOp::FillConsume),
-        2 => any::<u16>().prop_map(QOp::ConsumeWith),
-        1 => Just(QOp::Drop),
+        100 => proptest::collection::vec(any::<u8>(), 0..40).prop_map(QOp::Write),
+        60 => Just(QOp::Flush),
+        60 => (0usize..50).prop_map(QOp::Read),
+        40 => any::<u16>().prop_map(QOp::FillConsume),
+        40 => any::<u16>().prop_map(QOp::ConsumeWith),
+        20 => Just(QOp::Drop),
+        // rare: one operation in ~320, i.e. one history in eleven contains a run and one in
+        // twenty a chunk beyond 1 MiB
+        1 => (write_run(21), any::<u8>()).prop_map(|((total, piece), seed)| QOp::WriteRun { total, piece, seed }),
     ];
     proptest::collection::vec(qop, 0..max_ops).prop_map(|ops| Case::Queue { ops }).boxed()
 }
@@ -947,9 +1141,42 @@ impl Property for C16 {
             1 => Just(TOp::PollUntilDrained),
             2 => Just(TOp::FramesDrop),
             2 => Just(TOp::Winch),
+            // a record assembled from many writes, at ordinary sizes (1 KiB - 64 KiB, thorough 256 KiB)
+            1 => write_run(tier.pick(15, 17)).prop_map(|(total, piece)| TOp::WriteRun { total, piece }),
+        ];
+        // one session in ~35: a unit of 1-1.25 MiB (one in four: 2-2.25 MiB) assembled from
+        // many writes, followed after 0-2 further operations by a frames_drop, spliced into the
+        // generated session at a generated position: the long unit is pending or in flight
+        // when frames are dropped
+        let gap = prop_oneof![
+            3 => prop_oneof![Just(0u8), Just(5u8)].prop_map(TOp::Poll),
+            1 => Just(TOp::Flush),
+            1 => (1usize..200).prop_map(TOp::Write),
+            1 => any::<u8>().prop_map(TOp::Execute),
+            1 => Just(TOp::Winch),
+        ];
+        let long_unit = prop_oneof![
+            34 => Just(None),
+            1 => (
+                any::<u16>(),
+                prop_oneof![3 => Just(20u32), 1 => Just(21u32)],
+                0usize..(1 << 18),
+                prop_oneof![1 => 16usize..64, 3 => Just(4096usize), 2 => 256usize..20_000],
+                proptest::collection::vec(gap, 0..3),
+            )
+                .prop_map(Some),
         ];
         let pty = (
-            proptest::collection::vec(top, 1..25),
+            (proptest::collection::vec(top, 1..25), long_unit).prop_map(|(mut ops, long_unit)| {
+                if let Some((at, k, extra, piece, gap)) = long_unit {
+                    let at = (at as usize * (ops.len() + 1)) >> 16;
+                    let mut ins = vec![TOp::WriteRun { total: (1usize << k) + extra, piece }];
+                    ins.extend(gap);
+                    ins.push(TOp::FramesDrop);
+                    ops.splice(at..at, ins);
+                }
+                ops
+            }),
             prop_oneof![2 => Just(0usize), 2 => 1usize..4096, 1 => 4096usize..65536],
             prop_oneof![2 => Just(0usize), 1 => 1usize..300],
             proptest::collection::vec(fault(), 0..8),
@@ -968,14 +1195,19 @@ impl Property for C16 {
                     .iter()
                     .map(|o| match o {
                         TOp::Write(n) => *n + 16,
+                        TOp::WriteRun { total, .. } => *total + 16,
                         TOp::Execute(_) => 64,
                         _ => 0,
                     })
                     .sum();
+                // (sessions with a unit beyond 1 MiB: a third of these budgets, they are long
+                // because of their size already)
+                let long = ops.iter().any(|o| matches!(o, TOp::WriteRun { total, .. } if *total > MIB));
+                let (drain_us, attempts) = if long { (1_000_000, 100_000) } else { (3_000_000, 300_000) };
                 let mut bite = bite;
                 if bite != 0 {
                     let per_read_us = pause_us + 30;
-                    let min_bite = (total * per_read_us).div_ceil(3_000_000);
+                    let min_bite = (total * per_read_us).div_ceil(drain_us);
                     bite = bite.max(min_bite).max(1);
                 }
                 // ... and the writer must get there in <= ~300k write attempts
@@ -990,7 +1222,7 @@ impl Property for C16 {
                             .sum::<usize>()
                             / fs.len()
                     };
-                    while total / progress(&faults).max(1) > 300_000 {
+                    while total / progress(&faults).max(1) > attempts {
                         faults.push(Fault::None);
                     }
                 }
@@ -1035,7 +1267,7 @@ impl Property for C16 {
     }
 
     fn rule(&self) -> String {
-        "(a) ~92% of cases: 0-59 IOQueue operations (write 0-39 bytes, flush, read into 0-49 byte buffers, fill_buf+consume(k), consume_with(k), clear_but_last) against a deque-of-chunks model: after every operation len() must equal the bytes still readable, as_slice/is_empty/chunks_count must match, and over the whole history the bytes read must equal the model's. (b) ~8% of cases (~230 sessions per shard in quick): a real SystemTerminal on a pseudo-terminal, 1-24 operations (write records of 1-200 / ~4096 / 8 KiB-64 KiB (thorough 256 KiB) bytes, execute, flush, poll(0|5 ms), poll-until-drained, frames_drop, raise(SIGWINCH) in-process -- about one operation in ten, so two sessions in three contain at least one), a peer that drains 1-65536 bytes per read with 0-300 us pauses, and a cyclic pattern of injected short writes / EAGAIN / EINTR on the tty; every flush-delimited chunk starts with a unique header; the bytes received on the master side must parse into whole chunks in increasing order, each at most once, and every chunk written after the last frames_drop must be present. Every other pty session runs on a pty whose ioctl reports no pixel size while the peer answers every CSI 18 t CSI 14 t with 24x80 cells / 480x800 pixels (checked through Terminal::size() after start-up): such a terminal object answers a SIGWINCH inside poll by queueing a size request of its own behind whatever output is pending (with ioctl sizes it only produces a Resize event); these requests are skipped by the receiving parser in front of a chunk header or at the end of the stream and nowhere else, the signal makes no chunk eligible for dropping, and events returned by poll (Resize included) are ignored. The check runs one worker process per shard, so a raised signal reaches only the terminal object of the session that raised it. non-trivial = (a) >=4 operations with a drop or >8 bytes delivered, (b) a chunk larger than 8 KiB together with injected write faults or a throttled peer".into()
+        "(a) ~92% of cases: 0-59 IOQueue operations (write 0-39 bytes, flush, read into 0-49 byte buffers, fill_buf+consume(k), consume_with(k), clear_but_last, and -- one operation in ~320, i.e. one history in eleven -- a run of writes without flush: 2^k + 0..2^k bytes for k = 10..19, 1-1.25 MiB or 2-2.5 MiB (half of the runs; consecutive runs add up) handed over in pieces of 1-63 bytes / 4 KiB / 256-20000 bytes / all at once) against a deque-of-chunks model: after every operation (during a run: after every piece for len() and chunks_count, after the run for the rest) len() must equal the bytes still readable, as_slice/is_empty/chunks_count must match (a write never ends a chunk: queue/chunk-boundary-without-flush; a drop never shortens the front chunk: queue/drop-tore-front-chunk), and over the whole history the bytes read must equal the model's; one history in twenty holds a flush-delimited chunk beyond 1 MiB, one in fifty a drop while such a chunk, partly read, is at the front. (b) ~8% of cases (~230 sessions per shard in quick): a real SystemTerminal on a pseudo-terminal, 1-24 operations (write records of 1-200 / ~4096 / 8 KiB-64 KiB (thorough 256 KiB) bytes, execute, flush, poll(0|5 ms), poll-until-drained, frames_drop, raise(SIGWINCH) in-process -- about one operation in ten, so two sessions in three contain at least one --, a record of 1 KiB-64 KiB (thorough 256 KiB) handed over in many pieces without flush; one session in ~35 additionally has a unit of 1-1.25 MiB or 2-2.25 MiB assembled from 16-20000 byte pieces and, 0-2 operations (poll, flush, small write, execute, SIGWINCH) later, a frames_drop, spliced in at a generated position, with a third of the usual drain/attempt budgets), a peer that drains 1-65536 bytes per read with 0-300 us pauses, and a cyclic pattern of injected short writes / EAGAIN / EINTR on the tty; every flush-delimited chunk starts with a unique header; the bytes received on the master side must parse into whole chunks in increasing order, each at most once, and every chunk written after the last frames_drop must be present. Every other pty session runs on a pty whose ioctl reports no pixel size while the peer answers every CSI 18 t CSI 14 t with 24x80 cells / 480x800 pixels (checked through Terminal::size() after start-up): such a terminal object answers a SIGWINCH inside poll by queueing a size request of its own behind whatever output is pending (with ioctl sizes it only produces a Resize event); these requests are skipped by the receiving parser in front of a chunk header or at the end of the stream and nowhere else, the signal makes no chunk eligible for dropping, and events returned by poll (Resize included) are ignored. The check runs one worker process per shard, so a raised signal reaches only the terminal object of the session that raised it. non-trivial = (a) >=4 operations with a drop or >8 bytes delivered, (b) a chunk larger than 8 KiB together with injected write faults or a throttled peer".into()
     }
 
     fn assumptions(&self) -> Vec<String> {
@@ -1043,6 +1275,8 @@ impl Property for C16 {
             "a frames_drop ends the chunk being written (bytes written afterwards form a new unit); a chunk may be missing from the received stream only if a frames_drop happened after it was created; a chunk that had started transmission and is dropped anyway arrives torn and is reported".into(),
             "dropping fewer chunks than eligible is allowed (the property says 'only')".into(),
             "the queue model mirrors the documented chunking rules (flush starts a new chunk when the front chunk has unread bytes) and recomputes the length from its content".into(),
+            "a chunk is what lies between two flushes whatever its size and however many writes assembled it (units of 1 KiB to beyond 2 MiB are generated): IOQueue::chunks_count / frames_pending count exactly these units, and since clear_but_last / frames_drop discard by chunk, a chunk boundary that no flush made would let a drop discard part of a flush-delimited chunk ('only whole flush-delimited chunks'); on the pty the same defect shows as a long unit that arrives torn after a frames_drop (pty/chunk-torn-or-corrupted)".into(),
+            "output that the library itself produces inside poll (the size request after SIGWINCH) is not 'written or executed on the terminal object' by the program: C16 demands where it may appear in the stream, not that it is sent, nor within which poll; a request that stays queued until the next poll delays nothing the program wrote (all sessions poll with finite timeouts and drain at the end). That a poll which produced such output also transmits it -- and that poll(None) ends after SIGWINCH -- is C17's clause (signal/winch-poll-cannot-be-ended), not checked here".into(),
             "a session that exceeds the 20 s watchdog is inconclusive (exit 2), never a violation".into(),
             "SIGWINCH is not one of the property's operations: whatever the terminal object does about it, chunks written and not followed by a frames_drop call of the program must still arrive whole, once, in order ('nothing lost ... however polling is interleaved with further output'; only frames_drop may discard)".into(),
             "the size request CSI 18 t CSI 14 t that a terminal object in escape-sequence size mode writes while handling SIGWINCH inside poll is output of the library, not of the program; the program is inside poll at that moment, and a poll ends the unit being written, so the request may appear only between two units (in front of a header or at the end); a request between bytes that the program wrote without an intervening poll would break 'exact concatenation of the encoded bytes' and is reported as a torn chunk. Whether a request is sent at all, and whether it survives a later frames_drop, is not checked".into(),
